@@ -16,10 +16,10 @@ import (
 
 var bigOne = big.NewInt(1)
 
-func (x *uctx) expVerifyP1(h crypto.Hash, d, sig []byte) error {
+func (x *uctx) expVerifyP1(h crypto.Hash, d, sig []byte, both bool) error {
 	x.evl++
 	a := x.primary.VerifyP1(h, d, sig)
-	if x.second != nil {
+	if both && x.second != nil {
 		if b := x.second.VerifyP1(h, d, sig); (a == nil) != (b == nil) {
 			x.oracleSplit("VerifyPKCS1v15 "+hname(h), a, b, sig)
 		}
@@ -27,10 +27,10 @@ func (x *uctx) expVerifyP1(h crypto.Hash, d, sig []byte) error {
 	return a
 }
 
-func (x *uctx) expVerifyPSS(h crypto.Hash, d, sig []byte, salt int) error {
+func (x *uctx) expVerifyPSS(h crypto.Hash, d, sig []byte, salt int, both bool) error {
 	x.evl++
 	a := x.primary.VerifyPSS(h, d, sig, salt)
-	if x.second != nil {
+	if both && x.second != nil {
 		if b := x.second.VerifyPSS(h, d, sig, salt); (a == nil) != (b == nil) {
 			x.oracleSplit(fmt.Sprintf("VerifyPSS %s salt=%d", hname(h), salt), a, b, sig)
 		}
@@ -494,7 +494,7 @@ func (x *uctx) runCtMut(scheme string, chunk int) {
 			break
 		}
 	}
-	bitGran := x.thorough || ki.bits <= 2048
+	bitGran := x.thorough || ki.bits <= 1025 // quick tier: single-bit flips of ciphertexts up to 1025 bits, byte menu above
 	muts := mutate(ct, ki.N, bitGran, !bitGran || x.thorough)
 	dec := func(z *zcKey, b []byte) ([]byte, error) {
 		if scheme == "p1" {
@@ -532,7 +532,11 @@ func (x *uctx) runCtMut(scheme string, chunk int) {
 			case c.Cmp(ki.N) >= 0:
 				if err == nil {
 					w.Detail = "plaintext=" + hx(pt)
-					x.failPriv(z.form, op+": accepts a ciphertext whose value is >= N", w)
+					sig := op + ": accepts a ciphertext whose value is >= N"
+					if _, bad := rawBad.Load(ki.name + "/" + z.form + "/range"); bad {
+						sig = rawRangeSig // same defect as found in phase 1
+					}
+					x.failPriv(z.form, sig, w)
 				} else {
 					x.h["ctmut:"+m.kind+":>=N:rejected"]++
 				}
@@ -700,12 +704,15 @@ func (x *uctx) runP1Sig(h crypto.Hash) {
 					x.failPriv(f, "SignPKCS1v15: signs where the oracle refuses", w)
 				default:
 					x.trc++
-					if verr := x.expVerifyP1(h, d, r.sig); verr != nil {
+					if verr := x.expVerifyP1(h, d, r.sig, true); verr != nil {
 						w.Detail = "sig=" + hx(r.sig) + " oracle sig=" + hx(osig)
 						x.failPriv(f, "SignPKCS1v15: signature rejected by the oracle's verifier", w)
 					} else {
 						x.dist++
 						x.h[fmt.Sprintf("p1sig:zc→oracle:accepted(bytes-equal=%v)", bytes.Equal(r.sig, osig))]++
+						if f == "swapped" && x.c.WantSample() {
+							x.c.Sample(map[string]any{"unit": x.u.id, "form": f, "op": r.op, "hash": hname(h), "digest": hx(d), "signature": hx(r.sig), "verified_by": x.primary.Name()})
+						}
 						distinct[string(r.sig)] = true
 					}
 				}
@@ -748,7 +755,7 @@ func (x *uctx) runP1Sig(h crypto.Hash) {
 		if zcRefuses {
 			continue
 		}
-		cmp := func(hh crypto.Hash, dd, sig []byte, kind, name string) {
+		cmp := func(hh crypto.Hash, dd, sig []byte, kind, name string, both bool) {
 			x.st++
 			x.tr++
 			x.trc++
@@ -757,7 +764,7 @@ func (x *uctx) runP1Sig(h crypto.Hash) {
 			if x.isPanic(w.Op, zv, w) {
 				return
 			}
-			ov := x.expVerifyP1(hh, dd, sig)
+			ov := x.expVerifyP1(hh, dd, sig, both)
 			if (zv == nil) != (ov == nil) {
 				w.Detail = fmt.Sprintf("zc=%s (%v) oracle=%s (%v) digest=%s", verdict(zv), zv, verdict(ov), ov, hx(dd))
 				x.failPub("VerifyPKCS1v15: verdict differs from the oracle ("+kind+"): zc="+verdict(zv), w)
@@ -775,11 +782,11 @@ func (x *uctx) runP1Sig(h crypto.Hash) {
 			if len(d) > 0 {
 				d2 := clone(d)
 				d2[len(d2)-1] ^= 1
-				cmp(h, d2, sig, "other digest", "digest last bit flipped")
+				cmp(h, d2, sig, "other digest", "digest last bit flipped", true)
 			}
 			for _, h2 := range allHashes() {
 				if h2 != h && (h2 == 0 || hashSize(h2) == len(d)) {
-					cmp(h2, d, sig, "other hash id", "verified as "+hname(h2))
+					cmp(h2, d, sig, "other hash id", "verified as "+hname(h2), true)
 				}
 			}
 			for i, m := range mutate(sig, ki.N, bitGran, !bitGran || x.thorough) {
@@ -787,7 +794,7 @@ func (x *uctx) runP1Sig(h crypto.Hash) {
 					x.c.Incomplete("signature mutations of " + x.u.id + " not finished")
 					return
 				}
-				cmp(h, d, m.b, "mutation "+m.kind, m.name)
+				cmp(h, d, m.b, "mutation "+m.kind, m.name, x.crossOracle(m.kind, i))
 			}
 		}
 		// structure-level forgeries: sign a deviating EM with the private key
@@ -798,13 +805,22 @@ func (x *uctx) runP1Sig(h crypto.Hash) {
 					continue
 				}
 				forged := i2osp(x.ref.privOp(v), k)
-				cmp(h, d, forged, "EM deviation", "EM deviation: "+dv.name)
+				cmp(h, d, forged, "EM deviation", "EM deviation: "+dv.name, true)
 			}
 		}
 	}
 }
 
 // ---------------------------------------------------------------- PSS
+
+// quick tier: one hash per distinct digest length gets every single-bit flip, the others the byte menu.
+var pssBitHashes = map[crypto.Hash]bool{crypto.MD5: true, crypto.SHA1: true, crypto.SHA224: true, crypto.SHA256: true, crypto.SHA384: true, crypto.SHA512: true}
+
+// crossOracle: on mutated inputs the verdict comes from the primary oracle; the second
+// oracle re-checks it on every non-bitflip mutation and (quick tier) every 8th bit flip.
+func (x *uctx) crossOracle(kind string, i int) bool {
+	return x.thorough || kind != "bitflip" || i%8 == 0
+}
 
 func (x *uctx) runPSS(h crypto.Hash) {
 	ki := x.ki
@@ -814,7 +830,10 @@ func (x *uctx) runPSS(h crypto.Hash) {
 	maxSalt := emLen - hLen - 2
 	d := det("pss-digest-"+hname(h), hLen)
 	zpub := ki.zc("plain")
-	bitGran := x.thorough || ki.bits <= 2048
+	bitGran := x.thorough || (ki.bits <= 2048 && pssBitHashes[h])
+	if !x.thorough && !ki.stdOK && h != crypto.SHA1 && h != crypto.SHA256 {
+		bitGran = false // quick tier, exponents beyond crypto/rsa (slow textbook public operation): two hashes bit-granular
+	}
 
 	modes := []int{0, -1, 20, 1, -2}
 	if maxSalt > 0 {
@@ -844,7 +863,7 @@ func (x *uctx) runPSS(h crypto.Hash) {
 		return dedupe(v)
 	}
 	// cmpV: zcrypto's verdict must equal the oracle's; mustAccept additionally demands acceptance.
-	cmpV := func(dd, sig []byte, vm int, kind, name string, mustAccept bool, layerForm string) bool {
+	cmpV := func(dd, sig []byte, vm int, kind, name string, mustAccept bool, layerForm string, both bool) bool {
 		x.st++
 		x.tr++
 		x.trc++
@@ -853,7 +872,7 @@ func (x *uctx) runPSS(h crypto.Hash) {
 		if x.isPanic(w.Op, zv, w) {
 			return false
 		}
-		ov := x.expVerifyPSS(h, dd, sig, vm)
+		ov := x.expVerifyPSS(h, dd, sig, vm, both)
 		if mustAccept && ov != nil {
 			w.Detail = fmt.Sprintf("oracle err=%v", ov)
 			if layerForm != "" {
@@ -892,6 +911,9 @@ func (x *uctx) runPSS(h crypto.Hash) {
 		}
 		actual := actualOf(mode)
 		for fi, f := range formNames {
+			if !x.thorough && fi != 1 && mode != 0 && mode != -1 {
+				continue // quick tier: the salt-length alphabet runs on the precomputed form, {auto, equals-hash} on all forms
+			}
 			z := ki.zc(f)
 			type res struct {
 				op  string
@@ -901,8 +923,10 @@ func (x *uctx) runPSS(h crypto.Hash) {
 			var rs []res
 			s, e := z.SignPSS(fx.NewRand(seed), h, d, mode)
 			rs = append(rs, res{"SignPSS", s, e})
-			s, e = z.Sign(fx.NewRand(seed), d, &zrsa.PSSOptions{SaltLength: mode, Hash: h})
-			rs = append(rs, res{"PrivateKey.Sign(PSSOptions)", s, e})
+			if x.thorough || fi == 1 || mode == -1 {
+				s, e = z.Sign(fx.NewRand(seed), d, &zrsa.PSSOptions{SaltLength: mode, Hash: h})
+				rs = append(rs, res{"PrivateKey.Sign(PSSOptions)", s, e})
+			}
 			if mode == 0 {
 				s, e = guardB(func() ([]byte, error) { return zrsa.SignPSS(fx.NewRand(seed), z.priv, h, d, nil) })
 				rs = append(rs, res{"SignPSS(nil opts)", s, e})
@@ -943,7 +967,7 @@ func (x *uctx) runPSS(h crypto.Hash) {
 					ok := true
 					for _, vm := range verifyModes(actual) {
 						must := vm == 0 || vm == actual || (vm == -1 && actual == hLen)
-						acc := cmpV(d, r.sig, vm, "unmodified signature", "zc["+f+"] "+cs, must, f)
+						acc := cmpV(d, r.sig, vm, "unmodified signature", "zc["+f+"] "+cs, must, f, true)
 						if must && !acc {
 							ok = false
 						}
@@ -973,7 +997,7 @@ func (x *uctx) runPSS(h crypto.Hash) {
 			ok := true
 			for _, vm := range verifyModes(actual) {
 				must := vm == 0 || vm == actual || (vm == -1 && actual == hLen)
-				acc := cmpV(d, ps, vm, "unmodified signature", P.Name()+" "+cs, must, "")
+				acc := cmpV(d, ps, vm, "unmodified signature", P.Name()+" "+cs, must, "", true)
 				if must && !acc {
 					ok = false
 				}
@@ -981,7 +1005,7 @@ func (x *uctx) runPSS(h crypto.Hash) {
 			if ok {
 				x.dist++
 				x.h["pssverify:oracle→zc:accepted"]++
-				if (x.thorough && pi == 0) || (mode == -1 && pi == 0) {
+				if (x.thorough || pssBitHashes[h]) && mode == -1 && pi == 0 {
 					mutSet = append(mutSet, made{ps, actual, P.Name()})
 				}
 			}
@@ -997,7 +1021,7 @@ func (x *uctx) runPSS(h crypto.Hash) {
 			x.c.Broken("textbook PSS sign salt=%d: %v", sl, err)
 		}
 		for _, vm := range verifyModes(sl) {
-			cmpV(d, s, vm, "unmodified signature", fmt.Sprintf("textbook signature salt=%d", sl), vm == 0 || vm == sl, "")
+			cmpV(d, s, vm, "unmodified signature", fmt.Sprintf("textbook signature salt=%d", sl), vm == 0 || vm == sl, "", true)
 		}
 	}
 	if maxSalt < 0 {
@@ -1008,8 +1032,8 @@ func (x *uctx) runPSS(h crypto.Hash) {
 		sig := mutSet[0].sig
 		d2 := clone(d)
 		d2[0] ^= 0x80
-		cmpV(d2, sig, 0, "other digest", "digest first bit flipped", false, "")
-		cmpV(d[:hLen-1], sig, 0, "other digest", "digest one octet short", false, "")
+		cmpV(d2, sig, 0, "other digest", "digest first bit flipped", false, "", true)
+		cmpV(d[:hLen-1], sig, 0, "other digest", "digest one octet short", false, "", true)
 	}
 	// mutations
 	for _, m := range mutSet {
@@ -1023,7 +1047,7 @@ func (x *uctx) runPSS(h crypto.Hash) {
 				return
 			}
 			for _, vm := range vms {
-				cmpV(d, mu.b, vm, "mutation "+mu.kind, m.who+" signature, "+mu.name, false, "")
+				cmpV(d, mu.b, vm, "mutation "+mu.kind, m.who+" signature, "+mu.name, false, "", x.crossOracle(mu.kind, i))
 			}
 		}
 	}
@@ -1073,7 +1097,7 @@ func (x *uctx) runPSS(h crypto.Hash) {
 		}
 		forged := i2osp(x.ref.privOp(v), ki.k)
 		for _, vm := range dedupe([]int{0, -1, sl}) {
-			cmpV(d, forged, vm, "EM deviation", "EM deviation: "+dv.name, false, "")
+			cmpV(d, forged, vm, "EM deviation", "EM deviation: "+dv.name, false, "", true)
 		}
 	}
 	if emLen < ki.k { // modulus of 8k+1 bits: a non-zero octet in front of EM
@@ -1082,7 +1106,7 @@ func (x *uctx) runPSS(h crypto.Hash) {
 		if v.Cmp(ki.N) < 0 {
 			forged := i2osp(x.ref.privOp(v), ki.k)
 			for _, vm := range dedupe([]int{0, -1, sl}) {
-				cmpV(d, forged, vm, "EM deviation", "EM deviation: octet 01 in front of EM (modulus of 8k+1 bits)", false, "")
+				cmpV(d, forged, vm, "EM deviation", "EM deviation: octet 01 in front of EM (modulus of 8k+1 bits)", false, "", true)
 			}
 		} else {
 			x.h["pss:01||EM >= N (skipped)"]++
